@@ -220,9 +220,3 @@ func TestRandomBytes(t *testing.T) {
 		exec(t, bcase(tg.name, in, "random-bytes", 0, false), false)
 	})
 }
-
-func reportCountsLog(t *testing.T, counts map[string]int) {
-	for k, v := range counts {
-		t.Logf("%s: %d", k, v)
-	}
-}
